@@ -328,6 +328,9 @@ type storeOpts struct {
 	// another id - the id of an entry is not a function of the key material (X-Key-ID header added / renamed / removed,
 	// certificate with a subject key identifier of its own added / removed). Only without StableKid.
 	Relabel *entrySpec
+	// Renew != nil: the active entry is the key of that entry under the SAME id with a freshly issued certificate chain
+	// (certificate renewal: the published x5c changes, key material and id do not).
+	Renew *entrySpec
 }
 
 // buildStore creates one key-store generation.
@@ -347,7 +350,10 @@ func buildStore(idx int, o storeOpts, pk *keyPicker, ca *caSet, rng *mrand.Rand)
 	for e := 0; e < n; e++ {
 		var k *poolKey
 		relabel := o.Relabel != nil && stablePos < 0 && e == g.Active
-		if relabel {
+		renew := o.Renew != nil && e == g.Active
+		if renew {
+			k = &poolKey{Kind: o.Renew.Kind, Key: o.Renew.key}
+		} else if relabel {
 			k = &poolKey{Kind: o.Relabel.Kind, Key: o.Relabel.key}
 		} else {
 			k = pk.pick(o.Prefer)
@@ -358,6 +364,9 @@ func buildStore(idx int, o storeOpts, pk *keyPicker, ca *caSet, rng *mrand.Rand)
 		es := &entrySpec{Kind: k.Kind, Alg: kindAlg[k.Kind], key: k.Key, pub: k.Key.Public()}
 		// certificate chain
 		es.Chain = []int{0, 0, 1, 2, 3}[rng.IntN(5)]
+		if renew && es.Chain == 0 {
+			es.Chain = 1 + rng.IntN(3)
+		}
 		notAfter := time.Now().Add(48 * time.Hour)
 		if o.ActiveChain > 0 && e == g.Active {
 			es.Chain, notAfter = o.ActiveChain, o.ActiveNotAfter
@@ -410,6 +419,9 @@ func buildStore(idx int, o storeOpts, pk *keyPicker, ca *caSet, rng *mrand.Rand)
 		}
 		if relabel {
 			es.Relabelled = true
+		}
+		if renew {
+			es.Kid, es.KidSource = o.Renew.Kid, "explicit"
 		}
 		if es.KidSource == "explicit" {
 			hdr["X-Key-ID"] = es.Kid
